@@ -1749,14 +1749,15 @@ func (n *node) spawn(factory gen.ProcessFactory, options gen.ProcessOptionsExtra
 		n.targetManager.AddLink(p.parent, p.pid)
 	}
 
-	// register process and switch it to the sleep state
-	p.state = int32(gen.ProcessStateSleep)
-	n.processes.Store(p.pid, p)
-
 	// do not count system app processes
+	// (count it before it becomes visible: it can be killed and unregistered from then on)
 	if p.application != system.Name {
 		n.waitprocesses.Add(1)
 	}
+
+	// register process and switch it to the sleep state
+	p.state = int32(gen.ProcessStateSleep)
+	n.processes.Store(p.pid, p)
 
 	// process could send a message to itself during initialization
 	// so we should run this process to make sure this message is handled
